@@ -1,1 +1,81 @@
-Require Import JF.Model.Activator.
+(** * Props/C09.v — Pending candidate events equal what a fresh start from the current state creates.
+
+    Model: [JF.Model.Activator] (TagActivator + Tagger.(de)activate).  The taggers' generation
+    functions are inputs ([gen]); what they contain is the subject of C10.
+
+    Tie to the code: harness/c09.py replays every leg of recorded real runs through the model inside
+    Coq ([check_acase], Model/ActivatorCases.v): started handlers, in-states, trash lists and
+    activation flags must coincide with the real TagActivator's. *)
+From Coq Require Import List Arith Bool.
+Require Import JF.Model.Activator JF.Model.ActivatorCases JF.Proofs.ActivatorProofs JF.Proofs.ActivatorRunProofs.
+Import ListNotations.
+
+(** One leg (the committed event of tagger [t] trashes, the next activator call creates) preserves
+    "pending in-states == effective fresh generation" for every tagger, for identity-sensitive taggers
+    as multisets, for count-only taggers as counts — given the local frame condition [frame_ok_x]. *)
+Theorem pending_fresh_step :
+  forall w kinds s t gen s1 tl s2 tr e0 n,
+  lens s n ->
+  NoDup (nthl (w_creates w) t) ->
+  Inv kinds s e0 ->
+  act_trash w s t = (s1, tl) ->
+  act_update w s1 t gen = Some (s2, tr) ->
+  (forall x, frame_ok_x w t x (kinds x) (e0 x) (eff s2 gen x) = true) ->
+  lens s2 n /\ Inv kinds s2 (eff s2 gen).
+Proof. exact leg_preserves_inv. Qed.
+Print Assumptions pending_fresh_step.
+
+(** Whole runs, any length, any wiring, any interleaving of event kinds: a recorded run accepted by the
+    checker satisfies the invariant after every committed event (from the second leg on; before the
+    start-of-run event nothing has been created yet). *)
+Theorem pending_fresh :
+  forall (c : acase) l0 l1 rest,
+  check_acase c = true ->
+  c_legs c = l0 :: l1 :: rest ->
+  exists U0 U1 us,
+    run_states (c_w c) (a_init (c_w c)) None (c_legs c) = Some (U0 :: U1 :: us) /\
+    Forall2 (fun U l => Inv (kind_of c) U (eff_l l)) (U1 :: us) (l1 :: rest).
+Proof. exact accepted_run_pending_fresh. Qed.
+Print Assumptions pending_fresh.
+
+(** The number of event handlers demanded never exceeds what the tagger owns: starting handlers fails
+    (TagActivatorError) only if more in-states are generated than handlers are not running. *)
+Theorem no_handler_shortage :
+  forall ins s x,
+  length ins <= length (nthl (a_notrun s) x) ->
+  x < length (a_notrun s) ->
+  start_handlers s x ins <> None.
+Proof. exact start_handlers_enough. Qed.
+Print Assumptions no_handler_shortage.
+
+(** Non-vacuity: a small wiring (pair tagger 0, sampling tagger 1, start-of-run tagger 2) and a run of
+    three legs accepted by the checker. *)
+Definition ex_w : wiring :=
+  {| w_creates := [[0]; [1]; [0; 1]]; w_trashes := [[0]; [1]; [2]];
+     w_activates := [[]; []; []]; w_deactivates := [[]; []; []];
+     w_handlers := [[0; 1]; [2]; [3]]; w_start := 2; w_tagger_of := [0; 0; 1; 2] |}.
+Definition ex_gen (a : nat) : list (list instate) :=
+  [[Some [[a]; [1 - a]]]; [None]; [None]].
+Definition ex_case : acase :=
+  {| c_w := ex_w; c_kinds := [TIdentity; TCount; TOneShot];
+     c_legs := [ {| l_gen := ex_gen 0; l_torun := [(3, None)]; l_active := [true; true; true]; l_pick := 3; l_trash := [3] |};
+                 {| l_gen := ex_gen 0; l_torun := [(1, Some [[0]; [1]]); (2, None)]; l_active := [true; true; true];
+                    l_pick := 1; l_trash := [1] |};
+                 {| l_gen := ex_gen 1; l_torun := [(1, Some [[1]; [0]])]; l_active := [true; true; true];
+                    l_pick := 2; l_trash := [2] |} ] |}.
+Example ex_case_accepted : check_acase ex_case = true.
+Proof. vm_compute. reflexivity. Qed.
+(** ... and a run in which a pending pair event is NOT re-created after the active unit changed is
+    rejected (the frame condition fails), so the checker is not vacuous either. *)
+Definition ex_bad : acase :=
+  {| c_w := {| w_creates := [[]; [1]; [0; 1]]; w_trashes := [[0]; [1]; [2]];
+               w_activates := [[]; []; []]; w_deactivates := [[]; []; []];
+               w_handlers := [[0; 1]; [2]; [3]]; w_start := 2; w_tagger_of := [0; 0; 1; 2] |};
+     c_kinds := [TIdentity; TCount; TOneShot];
+     c_legs := [ {| l_gen := ex_gen 0; l_torun := [(3, None)]; l_active := [true; true; true]; l_pick := 3; l_trash := [3] |};
+                 {| l_gen := ex_gen 0; l_torun := [(1, Some [[0]; [1]]); (2, None)]; l_active := [true; true; true];
+                    l_pick := 1; l_trash := [1] |};
+                 {| l_gen := ex_gen 1; l_torun := []; l_active := [true; true; true];
+                    l_pick := 2; l_trash := [2] |} ] |}.
+Example ex_bad_rejected : check_acase ex_bad = false.
+Proof. vm_compute. reflexivity. Qed.
